@@ -11,6 +11,7 @@ Everything lives in the sub-namespace `LNN.Quant`.
 import LnnVerif.Model.Fol
 import LnnVerif.Lemmas.ArithOr
 import LnnVerif.Lemmas.Basic
+import Mathlib.Data.List.Nodup
 
 set_option linter.unusedSectionVars false
 
@@ -429,12 +430,19 @@ theorem find?_foldK (sel : BoundSel) (f : Gr → Bounds β) (ks : List Gr) (hnd 
 def stepP (acc : Table β × β) (p : Gr × Bounds β) : Table β × β :=
   ((aggRow acc.1 p.1 .both p.2).1, acc.2 + (aggRow acc.1 p.1 .both p.2).2)
 
+/-- aggregate a list of addressed proposals, in order, onto bounds `b` -/
+def aggAll (b : Bounds β) (ps : List (Gr × Bounds β)) : Bounds β :=
+  ps.foldl (fun b p => (aggregate .both b p.2).1) b
+
+theorem aggAll_single (b : Bounds β) (g : Gr) (p : Bounds β) :
+    aggAll b [(g, p)] = (aggregate .both b p).1 := rfl
+
 /-- folding addressed proposals: the row of `g` receives, in order, exactly the proposals
 addressed to `g`; no row is created or deleted, leaves are kept -/
 theorem find?_foldP (props : List (Gr × Bounds β)) (t : Table β) (a : β) (g : Gr) :
     (props.foldl stepP (t, a)).1.find? g
-      = (t.find? g).map (fun r => { r with b :=
-          (props.filter (fun p => p.1 == g)).foldl (fun b p => (aggregate .both b p.2).1) r.b }) := by
+      = (t.find? g).map (fun r => { r with b := aggAll r.b (props.filter (fun p => p.1 == g)) }) := by
+  unfold aggAll
   induction props generalizing t a with
   | nil => simp
   | cons p ps ih =>
@@ -464,12 +472,12 @@ theorem get_set_ne (s : FState ι α) (i j : ι) (t : Table α) (h : j ≠ i) :
   unfold FState.get FState.set
   have hij : ¬ i = j := fun e => h e.symm
   simp only [List.find?_cons, hij, decide_false, List.find?_filter]
-  have e : (fun a : ι × Table α => (!decide (a.1 = i)) && decide (a.1 = j))
+  have e : (fun a : ι × Table α => decide ((!decide (a.1 = i)) = true ∧ decide (a.1 = j) = true))
       = fun a => decide (a.1 = j) := by
     funext a
     by_cases ha : a.1 = j
     · have : ¬ a.1 = i := fun e => h (ha.symm.trans e)
-      simp [ha, this]
+      simp [ha, h]
     · simp [ha]
   rw [e]
 
@@ -509,9 +517,292 @@ theorem mem_dedupKeepFirst (l : List γ) (x : γ) : x ∈ dedupKeepFirst l ↔ x
 
 theorem nodup_dedupKeepFirst (l : List γ) : (dedupKeepFirst l).Nodup := by
   unfold dedupKeepFirst
-  exact List.nodup_reverse.mpr (nodup_dedup _)
+  exact List.nodup_reverse.2 (nodup_dedup _)
 
 end dedup
+
+/-! ## engine closed forms -/
+
+/-- the group keys of the rows of a body table -/
+def gkeys (free : List Nat) (rows : Table α) : List Gr := rows.map fun r => groupKey free r.g
+
+/-- the rows of group `k` (in table order) -/
+def grp (free : List Nat) (rows : Table α) (k : Gr) : Table α :=
+  rows.filter fun r => groupKey free r.g == k
+
+/-- the known instances of group `k`: working bounds of exactly the rows of the group -/
+def inst (free : List Nat) (rows : Table α) (k : Gr) : List (Bounds α) := (grp free rows k).map (·.b)
+
+theorem mem_grp {free : List Nat} {rows : Table α} {k : Gr} {r : Row α} :
+    r ∈ grp free rows k ↔ r ∈ rows ∧ groupKey free r.g = k := by
+  unfold grp; simp
+
+/-- fully quantified: a single group, all rows -/
+theorem grp_nil (rows : Table α) : grp [] rows [] = rows := by
+  unfold grp groupKey; simp
+
+theorem gkeys_nil (rows : Table α) : ∀ k ∈ gkeys [] rows, k = [] := by
+  intro k hk
+  unfold gkeys groupKey at hk
+  obtain ⟨r, _, rfl⟩ := List.mem_map.mp hk
+  rfl
+
+theorem fUpQuant_eq (kb : FKB ι α) (i j : ι) (rest : List ι) (s : FState ι α)
+    (hops : (kb i).ops = j :: rest) (hne : (s.get j).isEmpty = false) :
+    fUpQuant kb i s =
+      (s.set i ((dedupKeepFirst (gkeys (kb i).free (s.get j))).foldl
+          (stepK (qSel (kb i)) fun k => qUp (decide ((kb i).kind = .all)) (inst (kb i).free (s.get j) k))
+          (Table.addg (kb i).world (s.get i) (dedupKeepFirst (gkeys (kb i).free (s.get j))), 0)).1,
+       ((dedupKeepFirst (gkeys (kb i).free (s.get j))).foldl
+          (stepK (qSel (kb i)) fun k => qUp (decide ((kb i).kind = .all)) (inst (kb i).free (s.get j) k))
+          (Table.addg (kb i).world (s.get i) (dedupKeepFirst (gkeys (kb i).free (s.get j))), 0)).2) := by
+  unfold fUpQuant
+  simp only [hops, hne]
+  rfl
+
+/-- upward pass of a quantifier never touches another formula's table -/
+theorem fUpQuant_frame (kb : FKB ι α) (i : ι) (s : FState ι α) (j' : ι) (h : j' ≠ i) :
+    (fUpQuant kb i s).1.get j' = s.get j' := by
+  unfold fUpQuant
+  simp only
+  split
+  · rfl
+  · split
+    · rfl
+    · exact get_set_ne _ _ _ _ h
+
+/-- the quantifier's table after `fUpQuant`, row by row -/
+theorem fUpQuant_find? (kb : FKB ι α) (i j : ι) (rest : List ι) (s : FState ι α)
+    (hops : (kb i).ops = j :: rest) (hne : (s.get j).isEmpty = false) (g : Gr) :
+    ((fUpQuant kb i s).1.get i).find? g =
+      if g ∈ gkeys (kb i).free (s.get j) then
+        some (match (s.get i).find? g with
+          | some r => { r with b := (aggregate (qSel (kb i)) r.b
+              (qUp (decide ((kb i).kind = .all)) (inst (kb i).free (s.get j) g))).1 }
+          | none => ⟨g, (kb i).world, (aggregate (qSel (kb i)) (kb i).world
+              (qUp (decide ((kb i).kind = .all)) (inst (kb i).free (s.get j) g))).1⟩)
+      else (s.get i).find? g := by
+  rw [fUpQuant_eq kb i j rest s hops hne]
+  simp only [get_set_self]
+  rw [find?_foldK _ _ _ (nodup_dedupKeepFirst _), find?_addg]
+  simp only [mem_dedupKeepFirst]
+  by_cases hg : g ∈ gkeys (kb i).free (s.get j)
+  · simp only [hg, if_true]
+    cases (s.get i).find? g with
+    | some r => simp
+    | none => simp
+  · simp only [hg, if_false]
+    cases (s.get i).find? g with
+    | some r => simp
+    | none => simp
+
+theorem fDownQuant_eq (kb : FKB ι α) (i j : ι) (rest : List ι) (s : FState ι α)
+    (hops : (kb i).ops = j :: rest) (hne : (s.get j).isEmpty = false) :
+    fDownQuant kb i s =
+      let keysU := dedupKeepFirst (gkeys (kb i).free (s.get j))
+      let ti := Table.addg (kb i).world (s.get i) keysU
+      let props : List (Gr × Bounds α) := keysU.flatMap fun k =>
+        List.zip ((grp (kb i).free (s.get j) k).map (·.g))
+          (qDown (decide ((kb i).kind = .all)) (Table.getD (kb i).world ti k)
+            (inst (kb i).free (s.get j) k))
+      (((s.set i ti).set j (props.foldl stepP ((s.set i ti).get j, 0)).1),
+        (props.foldl stepP ((s.set i ti).get j, 0)).2) := by
+  unfold fDownQuant
+  simp only [hops, hne]
+  rfl
+
+/-- downward pass of a quantifier touches only its own table and the operand's -/
+theorem fDownQuant_frame (kb : FKB ι α) (i : ι) (s : FState ι α) (j' : ι) (hi : j' ≠ i)
+    (hj : ∀ j rest, (kb i).ops = j :: rest → j' ≠ j) :
+    (fDownQuant kb i s).1.get j' = s.get j' := by
+  unfold fDownQuant
+  simp only
+  split
+  · rfl
+  · rename_i j rest hops
+    split
+    · rfl
+    · rw [get_set_ne _ _ _ _ (hj j rest hops), get_set_ne _ _ _ _ hi]
+
+/-! ### the proposals of `fDownQuant`, sorted by addressee -/
+
+theorem filter_key_of_nodup {γ : Type} (l : List (Gr × γ)) (hnd : (l.map (·.1)).Nodup) (m : Nat)
+    (g : Gr) (p : γ) (h : l[m]? = some (g, p)) : l.filter (fun q => q.1 == g) = [(g, p)] := by
+  induction l generalizing m with
+  | nil => simp at h
+  | cons x xs ih =>
+    simp only [List.map_cons, List.nodup_cons] at hnd
+    cases m with
+    | zero =>
+      simp only [List.getElem?_cons_zero, Option.some.injEq] at h
+      subst h
+      have : xs.filter (fun q => q.1 == g) = [] := by
+        rw [List.filter_eq_nil_iff]
+        intro a ha hag
+        exact hnd.1 (List.mem_map.mpr ⟨a, ha, by simpa using hag⟩)
+      simp [this]
+    | succ m =>
+      simp only [List.getElem?_cons_succ] at h
+      have hmem : (g, p) ∈ xs := List.mem_of_getElem? h
+      have hx : ¬ x.1 = g := by
+        intro e
+        exact hnd.1 (List.mem_map.mpr ⟨(g, p), hmem, e.symm⟩)
+      simp [hx, ih hnd.2 m h]
+
+theorem flatMap_single {β γ : Type} (l : List β) (hnd : l.Nodup) (a : β) (ha : a ∈ l)
+    (F : β → List γ) (h : ∀ k ∈ l, k ≠ a → F k = []) : l.flatMap F = F a := by
+  induction l with
+  | nil => simp at ha
+  | cons x xs ih =>
+    rw [List.nodup_cons] at hnd
+    simp only [List.flatMap_cons]
+    by_cases hxa : x = a
+    · subst hxa
+      have : xs.flatMap F = [] := by
+        rw [List.flatMap_eq_nil_iff]
+        intro k hk
+        exact h k (List.mem_cons_of_mem _ hk) (fun e => hnd.1 (e ▸ hk))
+      rw [this, List.append_nil]
+    · rcases List.mem_cons.mp ha with e | ha'
+      · exact absurd e.symm hxa
+      · rw [h x (List.mem_cons_self ..) hxa, List.nil_append]
+        exact ih hnd.2 ha' (fun k hk => h k (List.mem_cons_of_mem _ hk))
+
+theorem find?_of_mem_nodup {β : Type} [Field β] [LinearOrder β] (t : Table β)
+    (hnd : (t.map (·.g)).Nodup) {r : Row β} (hr : r ∈ t) : t.find? r.g = some r := by
+  unfold Table.find?
+  induction t with
+  | nil => simp at hr
+  | cons x xs ih =>
+    simp only [List.map_cons, List.nodup_cons] at hnd
+    rcases List.mem_cons.mp hr with rfl | h'
+    · simp
+    · have hx : ¬ x.g = r.g := fun e => hnd.1 (e ▸ List.mem_map.mpr ⟨r, h', rfl⟩)
+      have hb : (x.g == r.g) = false := by simpa using hx
+      simp only [List.find?_cons, hb]
+      exact ih hnd.2 h'
+
+/-- With pairwise distinct stored groundings and pairwise distinct group keys, the proposals
+addressed to the row at position `m` of group `k0` are exactly one: the `m`-th proposal of that
+group. -/
+theorem downProps_filter (free : List Nat) (rows : Table α) (hnd : (rows.map (·.g)).Nodup)
+    (keys : List Gr) (hk : keys.Nodup) (hmem : ∀ k, k ∈ gkeys free rows → k ∈ keys)
+    (Q : Gr → List (Bounds α)) (hQ : ∀ k, (Q k).length = (grp free rows k).length)
+    (k0 : Gr) (m : Nat) (r : Row α) (p : Bounds α)
+    (hr : (grp free rows k0)[m]? = some r) (hp : (Q k0)[m]? = some p) :
+    (keys.flatMap fun k => List.zip ((grp free rows k).map (·.g)) (Q k)).filter
+      (fun q => q.1 == r.g) = [(r.g, p)] := by
+  have hrm : r ∈ grp free rows k0 := List.mem_of_getElem? hr
+  obtain ⟨hrows, hkey⟩ := mem_grp.mp hrm
+  have hk0 : k0 ∈ keys := hmem k0 (List.mem_map.mpr ⟨r, hrows, hkey⟩)
+  rw [List.filter_flatMap, flatMap_single keys hk k0 hk0]
+  · apply filter_key_of_nodup _ _ m
+    · rw [List.getElem?_zip_eq_some]
+      exact ⟨by simp [hr], hp⟩
+    · have hl : ((grp free rows k0).map (·.g)).length ≤ (Q k0).length := by
+        rw [hQ, List.length_map]
+      have : (List.zip ((grp free rows k0).map (·.g)) (Q k0)).map (·.1)
+          = (grp free rows k0).map (·.g) := List.map_fst_zip hl
+      rw [this]
+      exact List.Nodup.sublist (List.Sublist.map _ List.filter_sublist) hnd
+  · intro k _ hkk
+    rw [List.filter_eq_nil_iff]
+    intro a ha hag
+    have ha1 : a.1 ∈ (grp free rows k).map (·.g) := (List.of_mem_zip (show (a.1, a.2) ∈ _ from ha)).1
+    obtain ⟨r', hr', hg'⟩ := List.mem_map.mp ha1
+    have hk' := (mem_grp.mp hr').2
+    have : a.1 = r.g := by simpa using hag
+    apply hkk
+    rw [← hk', ← hkey, hg', this]
+
+/-- the list of addressed proposals `fDownQuant` aggregates onto the operand table -/
+def downProps (n : FNode ι α) (rows qt : Table α) : List (Gr × Bounds α) :=
+  (dedupKeepFirst (gkeys n.free rows)).flatMap fun k =>
+    List.zip ((grp n.free rows k).map (·.g))
+      (qDown (decide (n.kind = .all)) (Table.getD n.world qt k) (inst n.free rows k))
+
+/-- the quantifier's own table after `fDownQuant`: only missing group rows are created -/
+theorem fDownQuant_own (kb : FKB ι α) (i j : ι) (rest : List ι) (s : FState ι α)
+    (hops : (kb i).ops = j :: rest) (hne : (s.get j).isEmpty = false) (hij : i ≠ j) :
+    (fDownQuant kb i s).1.get i
+      = Table.addg (kb i).world (s.get i) (dedupKeepFirst (gkeys (kb i).free (s.get j))) := by
+  rw [fDownQuant_eq kb i j rest s hops hne]
+  simp only
+  rw [get_set_ne _ _ _ _ hij, get_set_self]
+
+/-- the operand table after `fDownQuant`, row by row: the row of `g` receives, in order, the
+`aggregate .both` of exactly the proposals addressed to `g` -/
+theorem fDownQuant_find? (kb : FKB ι α) (i j : ι) (rest : List ι) (s : FState ι α)
+    (hops : (kb i).ops = j :: rest) (hne : (s.get j).isEmpty = false) (hij : i ≠ j) (g : Gr) :
+    ((fDownQuant kb i s).1.get j).find? g
+      = ((s.get j).find? g).map (fun r => { r with b :=
+          (aggAll r.b ((downProps (kb i) (s.get j) (s.get i)).filter (fun p => p.1 == g))) }) := by
+  rw [fDownQuant_eq kb i j rest s hops hne]
+  simp only
+  rw [get_set_self, find?_foldP, get_set_ne _ _ _ _ (Ne.symm hij)]
+  unfold downProps
+  simp only [getD_addg]
+
+/-- stored groundings pairwise distinct: the row at position `m` of group `k` becomes the
+`aggregate .both` of its previous bounds with the `m`-th proposal of `qDown` on that group -/
+theorem fDownQuant_row (kb : FKB ι α) (i j : ι) (rest : List ι) (s : FState ι α)
+    (hops : (kb i).ops = j :: rest) (hij : i ≠ j) (hnd : ((s.get j).map (·.g)).Nodup)
+    (k : Gr) (m : Nat) (r : Row α) (p : Bounds α)
+    (hr : (grp (kb i).free (s.get j) k)[m]? = some r)
+    (hp : (qDown (decide ((kb i).kind = .all)) (Table.getD (kb i).world (s.get i) k)
+            (inst (kb i).free (s.get j) k))[m]? = some p) :
+    ((fDownQuant kb i s).1.get j).find? r.g = some { r with b := (aggregate .both r.b p).1 } := by
+  have hrows : r ∈ s.get j := (mem_grp.mp (List.mem_of_getElem? hr)).1
+  have hne : (s.get j).isEmpty = false := by
+    cases h : s.get j with
+    | nil => rw [h] at hrows; simp at hrows
+    | cons _ _ => rfl
+  rw [fDownQuant_find? kb i j rest s hops hne hij, find?_of_mem_nodup _ hnd hrows]
+  unfold downProps
+  rw [downProps_filter (kb i).free (s.get j) hnd _ (nodup_dedupKeepFirst _)
+    (fun k hk => (mem_dedupKeepFirst _ k).mpr hk)
+    (fun k => qDown (decide ((kb i).kind = .all)) (Table.getD (kb i).world (s.get i) k)
+      (inst (kb i).free (s.get j) k))
+    (fun k => by rw [qDown_length]; unfold inst; rw [List.length_map]) k m r p hr hp]
+  simp [aggAll_single]
+
+/-! ## readings -/
+
+/-- a value inside the previous bounds and inside the proposal stays inside the aggregated bounds -/
+theorem aggregate_both_keeps (b p : Bounds α) (x : α) (h0 : 0 ≤ x) (h1 : x ≤ 1)
+    (hb : b.lo ≤ x ∧ x ≤ b.hi) (hp : p.lo ≤ x ∧ x ≤ p.hi) :
+    (aggregate .both b p).1.lo ≤ x ∧ x ≤ (aggregate .both b p).1.hi := by
+  simp only [aggregate, reduceCtorEq, if_false]
+  exact ⟨clamp01_le_of_le h0 (max_le hb.1 hp.1), le_clamp01_of_le h1 (le_min hb.2 hp.2)⟩
+
+theorem forall₂_zipWith_agg {bs ps : List (Bounds α)} {vs : List α}
+    (hb : List.Forall₂ (fun b x => b.lo ≤ x ∧ x ≤ b.hi) bs vs)
+    (hp : List.Forall₂ (fun p x => p.lo ≤ x ∧ x ≤ p.hi) ps vs)
+    (hv : ∀ x ∈ vs, 0 ≤ x ∧ x ≤ 1) :
+    List.Forall₂ (fun b x => b.lo ≤ x ∧ x ≤ b.hi)
+      (List.zipWith (fun b p => (aggregate .both b p).1) bs ps) vs := by
+  induction hb generalizing ps with
+  | nil => cases hp; exact List.Forall₂.nil
+  | @cons b x bs vs hbx _ ih =>
+    cases hp with
+    | cons hpx hrest =>
+      have hx := hv x (List.mem_cons_self ..)
+      exact List.Forall₂.cons (aggregate_both_keeps b _ x hx.1 hx.2 hbx hpx)
+        (ih hrest (fun y hy => hv y (List.mem_cons_of_mem _ hy)))
+
+theorem forall₂_getElem? {β γ : Type} {R : β → γ → Prop} {l₁ : List β} {l₂ : List γ}
+    (h : List.Forall₂ R l₁ l₂) (m : Nat) {a : β} {b : γ} (ha : l₁[m]? = some a)
+    (hb : l₂[m]? = some b) : R a b := by
+  induction h generalizing m with
+  | nil => simp at ha
+  | cons hab _ ih =>
+    cases m with
+    | zero =>
+      simp only [List.getElem?_cons_zero, Option.some.injEq] at ha hb
+      subst ha; subst hb; exact hab
+    | succ m =>
+      simp only [List.getElem?_cons_succ] at ha hb
+      exact ih m ha hb
 
 end Quant
 end LNN
